@@ -610,7 +610,12 @@ Fixpoint bt2dq_outside (inq : N) (skip : bool) (l : bytes) : bytes :=
         end
       else c :: bt2dq_outside inq false r
   end.
-Definition bt2dq (q : bool) (s : bytes) : bytes := if q then bt2dq_outside 0 false s else backticks_to_dq s.
+(* the code before /repo de6f9a4: strings.ReplaceAll of the backtick by the double quote - every backtick, wherever it stands *)
+Definition bt2dq_every (s : bytes) : bytes := map (fun c => if c =? 96 then 34 else c) s.
+(* fx_quotes off: the old unconditional replacement (transcribed here, the shared SqlLex model follows the current
+   source); on: the current code, SqlLex.backticks_to_dq. bt2dq_outside is an independent reading of the same loop,
+   kept for the comparison in Props *)
+Definition bt2dq (q : bool) (s : bytes) : bytes := if q then backticks_to_dq s else bt2dq_every s.
 (* the shared normalisation of ValidateSQLRequest: backticks to double quotes, mask, strip comments *)
 Definition norm_v (q : bool) (s : bytes) : bytes * list smask :=
   let s1 := bt2dq q s in
